@@ -91,6 +91,9 @@ def programs(rng, n):
             body.append(stmt)
             if rng.random() < 0.3:
                 body.append(rng.choice(["", "# a comment", "zz_n = 1  # trailing", "zz_s = '''\n0.0.0.0\n'''", "x = 1 # nosec"]))
+        if rng.random() < 0.2:
+            # a file-level finding (B613) behind characters that str.splitlines() counts as line ends but files do not
+            body += ["\x0c", "zz_u = 'x\u2028y\x1cz'", "zz_v = 1  # \x85 and \x0b in a comment", "# bidi \u202e here", "zz_w = 2"]
         src = "\n".join(pre + body) + "\n"
         try:
             ast.parse(src)
